@@ -56,7 +56,16 @@ func c04MetricDocs(rng *Rng, tag string) []string {
 		name := fmt.Sprintf("verif_%s_%d", tag, rng.Intn(4))
 		b := c04Blank
 		var d string
-		switch rng.Intn(9) {
+		switch rng.Intn(12) {
+		case 9, 10, 11:
+			// a VALID operation out of the cross product of the members the validation looks at
+			ok := false
+			for k := 0; k < 200 && !ok; k++ {
+				d, ok = c04TableOp(rng, tag)
+			}
+			if !ok {
+				d = fmt.Sprintf(`{"name":"%s","set":1}`, name+"_g")
+			}
 		case 0:
 			d = fmt.Sprintf(`{%s"name"%s:%s"%s",%s"set":%s%s}`, b(rng), b(rng), b(rng), name+"_g", b(rng), c04Num(rng), b(rng))
 		case 1:
@@ -64,21 +73,117 @@ func c04MetricDocs(rng *Rng, tag string) []string {
 		case 2:
 			d = fmt.Sprintf(`{"name":"%s","action":"set","value":%s,"labels":{}}`, name+"_g", c04Num(rng))
 		case 3:
-			d = fmt.Sprintf(`{"name":"%s","action":"observe","value":%s,"buckets":[1,2.5,%s]}`, name+"_h", c04Num(rng), PickOne(rng, []string{"5", "1e1", "null"}))
+			d = fmt.Sprintf(`{"name":"%s","action":"observe","value":%s,"buckets":[1,2.5,%s]}`, name+"_h", c04Num(rng), PickOne(rng, []string{"5", "1e1", "5.0"})) // increasing: a histogram that cannot be created is dropped silently (C16 findings)
 		case 4:
-			d = fmt.Sprintf(`{"group":"grp%d","name":"%s","action":"add","value":1,"labels":{"x":"\u0041\n\"q\""}}`, rng.Intn(2), name+"_gc")
+			// the name carries the group: one series written by two groups stays owned by the first (C16 finding)
+			g := rng.Intn(2)
+			d = fmt.Sprintf(`{"group":"grp%d","name":"%s%d","action":"add","value":1,"labels":{"x":"\u0041\n\"q\""}}`, g, name+"_gc", g)
 		case 5:
 			d = fmt.Sprintf(`{"group":"grp%d","action":"expire"}`, rng.Intn(2))
 		case 6:
 			d = fmt.Sprintf(`{"Name":"%s","SET":%s,"unknown":[{"k":[true,false,null,"}"]},-0.5e-3],"labels":null,"group":null}`, name+"_g", c04Num(rng))
 		case 7:
-			d = fmt.Sprintf("{\n  \"name\": \"%s\",\n  \"action\": \"add\",\n  \"value\": %s,\n  \"add\": null\n}", name+"_c", PickOne(rng, []string{"1", "0.5"}))
+			d = fmt.Sprintf("{\n  \"name\": \"%s\",\n  \"action\": \"add\",\n  \"value\": %s,\n  \"add\": null\n}", name+"_c2", PickOne(rng, []string{"1", "0.5"}))
 		default:
 			d = fmt.Sprintf(`{"name":"%s","set":%s,"value":null,"buckets":null}`, name+"_g", c04Num(rng))
 		}
 		docs = append(docs, d)
 	}
 	return docs
+}
+
+// c04TableOp draws ONE metric operation from the cross product of the members that decide whether an
+// operation can be applied: group (none / present) x action (set, add, observe, expire, none, unknown,
+// wrong case) x name x value x buckets x the set/add shortcuts. Every member is spelled legally
+// ("absent" is omitted / null / ""); only the combination decides. Most draws are supported
+// combinations. The second result is the generator's INTENT (it only bounds the number of failures per
+// task and picks the bucket); whether the text makes the run a failed one the Lean driver decides.
+// Names depend on group and effective action, so applied operations never clash in the registry.
+func c04TableOp(rng *Rng, tag string) (string, bool) {
+	group := PickOne(rng, []string{"", "", "", "grp0", "grp1", "grp0"})
+	action := PickOne(rng, []string{"set", "add", "observe", "expire", "set", "add", "observe", "expire", "set", "add", "observe", "expire", "", "bogus", "Observe", "EXPIRE", "Set"})
+	wantsValue := action == "set" || action == "add" || action == "observe"
+	hasName := rng.Chance(88)
+	if action == "expire" {
+		hasName = rng.Chance(30)
+	}
+	hasValue := rng.Chance(15)
+	if wantsValue {
+		hasValue = rng.Chance(90)
+	}
+	hasBuckets := rng.Chance(12)
+	if action == "observe" {
+		hasBuckets = rng.Chance(88)
+	}
+	set, add := false, false
+	switch rng.Intn(14) {
+	case 0:
+		set = true
+	case 1:
+		add = true
+	case 2:
+		set, add = rng.Chance(70), true
+	}
+	if (set || add) && rng.Chance(60) {
+		action = PickOne(rng, []string{"", "", action})
+	}
+	// what MetricOperationsFromReader makes of the shortcuts
+	eff, effValue := action, hasValue
+	if set && !add {
+		eff, effValue = "set", true
+	}
+	if add && !set {
+		eff, effValue = "add", true
+	}
+	valid := eff != "" && !(set && add)
+	if group == "" {
+		valid = valid && (eff == "set" || eff == "add" || eff == "observe") && hasName
+	} else {
+		valid = valid && (eff == "expire" || eff == "set" || eff == "add") && (hasName || eff == "expire")
+	}
+	if (eff == "set" || eff == "add" || eff == "observe") && !effValue {
+		valid = false
+	}
+	if eff == "observe" && !hasBuckets {
+		valid = false
+	}
+	kind := eff
+	if kind != "set" && kind != "add" && kind != "observe" {
+		kind = "x"
+	}
+	g := "u"
+	if group != "" {
+		g = group
+	}
+	var ms []string
+	str := func(key, val string, has bool) {
+		switch {
+		case has:
+			ms = append(ms, fmt.Sprintf(`"%s":"%s"`, key, val))
+		case rng.Chance(25):
+			ms = append(ms, fmt.Sprintf(`"%s":%s`, key, PickOne(rng, []string{`""`, "null"})))
+		}
+	}
+	str("group", group, group != "")
+	str("action", action, action != "")
+	str("name", fmt.Sprintf("verif_%s_tab_%s_%s", tag, g, kind), hasName)
+	num := func(key string, has bool, val string) {
+		switch {
+		case has:
+			ms = append(ms, fmt.Sprintf(`"%s":%s`, key, val))
+		case rng.Chance(20):
+			ms = append(ms, fmt.Sprintf(`"%s":null`, key))
+		}
+	}
+	num("value", hasValue, PickOne(rng, []string{"1", "0", "2.5", "1e1"}))
+	num("buckets", hasBuckets, PickOne(rng, []string{"[1,2,5]", "[1,2,5]", "[1,2,5]", "[]"}))
+	num("set", set, PickOne(rng, []string{"1", "0", "3.5"}))
+	num("add", add, PickOne(rng, []string{"1", "2"}))
+	if rng.Chance(15) {
+		ms = append(ms, `"labels":{}`)
+	}
+	rng.Shuffle(len(ms), func(i, j int) { ms[i], ms[j] = ms[j], ms[i] })
+	return "{" + strings.Join(ms, ",") + "}", valid
 }
 
 func c04Join(rng *Rng, docs []string) string {
@@ -103,7 +208,7 @@ func c04Damage(rng *Rng, docs []string, kind string) (string, string) {
 	pos := rng.Intn(len(docs) + 1)
 	shapes := []string{"truncated", "stray-closer", "stray-closer", "stray-closer", "trailing-garbage", "wrong-type", "top-level-not-object", "separator"}
 	if kind == "m" {
-		shapes = append(shapes, "bad-token", "invalid-operation")
+		shapes = append(shapes, "bad-token", "invalid-operation", "validation-table", "validation-table", "validation-table")
 	} else {
 		shapes = append(shapes, "unknown-field")
 	}
@@ -209,6 +314,23 @@ func c04Damage(rng *Rng, docs []string, kind string) (string, string) {
 		}
 		cp[i] = d
 		return c04Join(rng, cp), shape
+	case "validation-table":
+		// an operation every member of which is spelled legally, but whose COMBINATION of group / action /
+		// name / value / buckets / shortcuts is not supported (nothing would apply it)
+		bad, ok := "", true
+		for k := 0; k < 200 && ok; k++ {
+			bad, ok = c04TableOp(rng, "t")
+		}
+		var parts []string
+		for i := 0; i <= len(cp); i++ {
+			if i == pos {
+				parts = append(parts, bad)
+			}
+			if i < len(cp) {
+				parts = append(parts, cp[i])
+			}
+		}
+		return c04Join(rng, parts), shape
 	default: // invalid-operation: parsable, rejected by ValidateOperations
 		bad := PickOne(rng, []string{
 			`{"name":"verif_x","action":"bogus","value":1}`,
@@ -354,6 +476,10 @@ func c04Parsers(c *Case, rng *Rng, r *Run) {
 		}
 		c.Note("patchfile:" + shape)
 		c.Op("patchfile hex="+c04Hex(text), c04PatchAnswer(text))
+		// one operation out of the validation table, supported or not
+		top, valid := c04TableOp(rng, "p")
+		c.Note(fmt.Sprintf("metricsfile:table-op-intended-valid=%v", valid))
+		c.Op("metricsfile hex="+c04Hex(top), c04MetricsAnswer(top))
 	}
 }
 
@@ -363,11 +489,43 @@ func c04ParserCorpus(c *Case) {
 	c.Nontrivial = true
 	m := `{"name":"verif_m","set":1}`
 	for _, t := range []string{"", " \n", m, m + "\n" + m, m + m, m + "}", m + "]", m + "\n}\n", m + " ] " + m, "}" + m, "]", "}", m + "}}garbage",
-		m + ",", m + "," + m, "[" + m + "]", m[:len(m)-1], m[:9], m + "\n{", m + " xyz", "null", m + "null", "5", `{"name":5,"set":1}`,
+		m + ",", m + "," + m, "[" + m + "]", m[:len(m)-1], m[:9], m + "\n{", m + " xyz", "null", m + "null", "5", `{"name":5,"set":1}`, `{"name":"verif_m_h","action":"observe","value":1,"buckets":[1,2.5,null]}`,
 		`{"name":"verif_m","set":"1"}`, `{"name":"verif_m","action":"bogus","value":1}`, `{"NAME":"verif_m","Add":1}`, `{}`,
 		`{"name":"verif_m","set":1,"set":null}`, `{"name":"verif_m","set":01}`, `{"name":"verif_m","set":1,}`, `{"name":"verif_m","set":1e}`,
 		"{\"name\":\"verif\tm\",\"set\":1}", `{"name":"verif_\u00e9","set":1}`, `{"name":"verif_\x","set":1}`, `{'name':'verif_m','set':1}`} {
 		c.Op("metricsfile hex="+c04Hex(t), c04MetricsAnswer(t))
+	}
+	// the whole validation table: group x action x name x value x buckets, then the shortcuts
+	for _, g := range []string{"", `"group":"g",`} {
+		for _, a := range []string{"set", "add", "observe", "expire", "", "bogus", "Observe"} {
+			for bits := 0; bits < 8; bits++ {
+				t := "{" + g
+				if a != "" {
+					t += `"action":"` + a + `",`
+				}
+				if bits&1 != 0 {
+					t += `"name":"verif_m",`
+				}
+				if bits&2 != 0 {
+					t += `"value":1,`
+				}
+				if bits&4 != 0 {
+					t += `"buckets":[1,2],`
+				}
+				t += `"labels":{}}`
+				c.Op("metricsfile hex="+c04Hex(t), c04MetricsAnswer(t))
+			}
+			for _, sc := range []string{`"set":1`, `"add":1`, `"set":1,"add":1`, `"set":null,"add":2`} {
+				for _, n := range []string{"", `"name":"verif_m",`} {
+					t := "{" + g + n
+					if a != "" {
+						t += `"action":"` + a + `",`
+					}
+					t += sc + "}"
+					c.Op("metricsfile hex="+c04Hex(t), c04MetricsAnswer(t))
+				}
+			}
+		}
 	}
 	p := `{"operation":"CreateOrUpdate","object":{"apiVersion":"v1","kind":"ConfigMap","metadata":{"name":"x","namespace":"d"},"data":{"a":"b"}}}`
 	for _, t := range []string{"", " \n", p, p + "\n" + p, p + p, p + "}", p + "]", p + "\n}\n", "}" + p, p + " ] " + p, p + ",", p + " xyz", "[" + p + "]",
